@@ -25,6 +25,9 @@ ExcludedCap == 600000
 MaxExcludedStep == 10000
 \* immediate re-sends are legitimate while they are bounded: at most 10 attempts per replica plus the extra chances
 MaxAttemptsWithoutBackoff == 45
+\* replies after which the code backs off before it may use the same store again (send failures, busy / not-ready style region errors)
+BackoffBeforeSameStore == {"rpc_error", "deadline", "disk_full", "max_ts_not_synced", "proposal_in_merge", "read_index_not_ready", "region_not_initialized",
+                           "server_busy", "server_busy_wait"}
 Rules(e) ==
   LET a == e.attempts  n == Len(a) IN
   \* 1. the call ends, and it ends after a bounded number of attempts
@@ -40,6 +43,10 @@ Rules(e) ==
   \* 4. no unbounded run of attempts without any back-off in between
   /\ ~e.spinning => Check(\A i \in 1..n : Cardinality({j \in 1..n : a[j].btimes = a[i].btimes}) <= MaxAttemptsWithoutBackoff,
                           "more attempts in a row without any back-off than the replicas' attempt limits allow", <<e.cfg, e.script, e.tail>>)
+  \* 4b. after these replies the same store is only tried again after a back-off (so that a spent budget ends the call)
+  /\ \A i \in 1..(n - 1) :
+       (a[i].store = a[i + 1].store /\ a[i].kind \in BackoffBeforeSameStore) =>
+          Check(a[i + 1].btimes > a[i].btimes, "the same store was tried again without the back-off its reply calls for", <<e.cfg, e.script, e.tail, i, a[i].kind>>)
   \* 5. flag discipline
   /\ (e.cfg.cmd = "write") => \A i \in 1..n : Check(~a[i].rr /\ ~a[i].sr, "a write command was sent flagged as replica read or stale read", <<e.cfg, i, a[i]>>)
   /\ \A i \in 2..n : Check(a[i].retry, "a re-send does not carry the retry marker", <<e.cfg, e.script, i>>)
